@@ -19,7 +19,7 @@ fn name() -> BoxedStrategy<String> {
     prop_oneof![
         5 => one_of(&["a", "b", "c-d", "_e", "x1", "--v", "-w"]),
         2 => one_of(&["é", "日本", "ñ-x", "\u{3b1}"]),
-        3 => one_of(&["\\31 ", "\\31 a", "\\31 0", "\\39 9x", "\\32 ", "\\30 ", "a\\.b", "a\\ b", "\\--x", "f\\6fo", "a\\:b", "\\@k", "x\\7e ", "\\e9 t", "a\\31 ", "\\1f600 ", "\\+1"]),
+        3 => one_of(&["\\31 ", "\\31 a", "\\31 0", "\\39 9x", "\\32 ", "\\30 ", "a\\.b", "a\\ b", "\\--x", "f\\6fo", "a\\:b", "\\@k", "x\\7e ", "\\e9 t", "a\\31 ", "\\1f600 ", "\\+1", "a\\a0 b", "a\\a1 b", "a\\80 b", "a\\9f b", "a\\7f b", "\\a0 b", "x\\0000a0y", "a\\ad b", "a\\200b c"]),
     ]
     .boxed()
 }
@@ -181,14 +181,14 @@ impl Prop for C25 {
             Ok(v) if v[0].as_deref() == Some("true") => {}
             Ok(v) => return esc(s, format!("selector.parse({s:?}) prints {v1:?}, which parses to a different selector list ({:?})", v[0])),
             Err(Res::Panic(m)) => return Verdict::fail(format!("panic re-parsing {v1:?}: {m}")),
-            Err(e) => return esc(s, format!("selector.parse({s:?}) prints {v1:?}, which does not parse again: {}", e.brief().chars().take(120).collect::<String>())),
+            Err(e) => return not_reparsed(&v1, format!("selector.parse({s:?}) prints {v1:?}, which does not parse again: {}", e.brief().chars().take(120).collect::<String>())),
         }
         // parse(t1) must succeed and equal parse(S)
         match rs::probes(&[format!("selector.parse({}) == selector.parse({})", q(&t1), q(s))]) {
             Ok(v) if v[0].as_deref() == Some("true") => {}
             Ok(v) => return esc(s, format!("parse({s:?}) prints {t1:?}, which parses to a different selector list ({:?})", v[0])),
             Err(Res::Panic(m)) => return Verdict::fail(format!("panic re-parsing {t1:?} (printed for {s:?}): {m}")),
-            Err(e) => return esc(s, format!("parse({s:?}) prints {t1:?}, which does not parse again: {}", e.brief().chars().take(120).collect::<String>())),
+            Err(e) => return not_reparsed(&t1, format!("parse({s:?}) prints {t1:?}, which does not parse again: {}", e.brief().chars().take(120).collect::<String>())),
         }
         // printing is stable
         match emit(&t1) {
@@ -197,6 +197,12 @@ impl Prop for C25 {
             Err(e) => Verdict::fail(format!("{s:?} prints {t1:?}, which fails as a rule: {}", e.brief().chars().take(120).collect::<String>())),
         }
     }
+}
+
+/// known deviation: some escapes that the printer writes in backslash form (`[x\~~=a]`, an escaped `~` before the `~=`
+/// operator) are not accepted by rsass's own selector reader; printed text without a backslash must always parse
+fn not_reparsed(printed: &str, msg: String) -> Verdict {
+    if printed.contains('\\') { Verdict::known("C25-printed-escape-not-reparsed", msg) } else { Verdict::fail(msg) }
 }
 
 /// known deviation: selector.parse keeps the escape spelling of a name (`x\7e ` and `x\~` are different names to
